@@ -1,5 +1,5 @@
 /-
-Tie 2 (facts): the numeric literals and comparison/boolean operators of the Go functions below, REGENERATED from /repo on
+Tie 2 (facts): the set of numeric literals and the multiset of comparison/boolean operators of the Go functions below, REGENERATED from /repo on
 every run (Gen/Facts.lean), are the ones the hand-written model was written against (C17).
 A changed constant, a flipped or dropped comparison in one of these functions breaks the `decide` below even where no sampled
 input shows it; renaming and reordering of statements do not.
@@ -10,14 +10,14 @@ open SpatialId
 
 /-- literals and comparisons of `transform.calcBitIndex` -/
 theorem facts_transform_calcBitIndex :
-    Gen.funcFacts.lookup "transform.calcBitIndex" = some ["i:0", "i:0", "i:1", "i:2", "op:<", "op:>="] := by decide
+    Gen.funcFacts.lookup "transform.calcBitIndex" = some ["i:0", "i:1", "i:2", "op:<", "op:>="] := by decide
 
 /-- literals and comparisons of `transform.convertVerticallIDToBit` -/
 theorem facts_transform_convertVerticallIDToBit :
-    Gen.funcFacts.lookup "transform.convertVerticallIDToBit" = some ["i:1", "i:1", "i:2", "i:2", "op:<", "op:=="] := by decide
+    Gen.funcFacts.lookup "transform.convertVerticallIDToBit" = some ["i:1", "i:2", "op:<", "op:=="] := by decide
 
 /-- literals and comparisons of `transform.convertBitToVerticalID` -/
 theorem facts_transform_convertBitToVerticalID :
-    Gen.funcFacts.lookup "transform.convertBitToVerticalID" = some ["i:0", "i:0", "i:0", "i:0", "i:0", "i:0", "i:0", "i:0", "i:1", "i:1", "i:1", "i:1", "i:1", "i:2", "i:2", "op:!=", "op:<"] := by decide
+    Gen.funcFacts.lookup "transform.convertBitToVerticalID" = some ["i:0", "i:1", "i:2", "op:!=", "op:<"] := by decide
 
 end SpatialId.FactsBitAlt
